@@ -188,6 +188,11 @@ func (env *Env) ident(name string) Val {
 	}
 	if a, ok := env.lookupLocal(name); ok {
 		if a.Heap {
+			// a parameter whose address is taken lives in a heap cell that is only filled by the body: in the entry
+			// state (old(...)) the name still denotes the parameter's value
+			if pval, isParam := env.ex.params[name]; isParam && env.fn == env.ex.fn && env.st == env.ex.root().entrySt {
+				return pval
+			}
 			pv, ok := env.ex.vals[a]
 			if !ok {
 				env.fail("local %s not allocated yet here", name)
@@ -664,6 +669,24 @@ func (env *Env) call(x *CCall) Val {
 		n := *env
 		n.st = env.old
 		return n.eval(x.Args[0])
+	case "athead":
+		// athead(k, e): the value of e when the head of loop #k of this function was last reached (start of the
+		// current iteration of that enclosing loop)
+		if len(x.Args) != 2 {
+			env.fail("athead(k, e)")
+		}
+		ki, ok := x.Args[0].(*CInt)
+		if !ok {
+			env.fail("athead: first argument must be a loop ordinal")
+		}
+		for _, li := range env.ex.loopInfo {
+			if fmt.Sprint(li.ordinal) == ki.V && li.headSt != nil {
+				n := *env
+				n.st = li.headSt
+				return n.eval(x.Args[1])
+			}
+		}
+		env.fail("athead: loop #%s has not been entered here", ki.V)
 	case "len":
 		v := env.eval(x.Args[0])
 		switch {
